@@ -188,6 +188,25 @@ def run(ctx: Ctx) -> int:
             for k, q0 in enumerate(T):
                 groups.append((backend, {"query": q0, "features": {"shortcut_in_merged_step": 2, f"k{k}": 1, "x": 1}},
                                make_variants(ctx, q0, diff.members_used(s, q0), ctx.rng("c08short", backend, k))))
+    # chained steps whose handed-over value is used ONCE, with a plug-in call / First() / a nested aggregate in the first step and a
+    # terminal that does or does not look at the values: the separately written and the hand-fused spelling are the same query
+    if not ctx.replay:
+        for backend in sch.BACKENDS:
+            s = sch.fixed(backend)
+            C = s["main"]["coll"]
+            firsts = [("DeltaR(j.eta(), j.phi(), 0.0, 0.0)", "d"), ("j.trkPts().First()", "v"), ("j.trkPts().Count()", "n"), ("j.trkPts().Sum()", "u")]
+            if backend == "atlas":
+                firsts.append(("j.getAttributeFloat('w')", "w"))
+            tails = [".Count()", ".Sum()", ".Where(lambda z: z > 1.0).Count()", ".Select(lambda z: z)"]
+            k = 0
+            for fexpr, v in firsts:
+                for tail in tails:
+                    k += 1
+                    sep = f"ds.Select(lambda e: e.{C}('A').Select(lambda j: {fexpr}).Select(lambda {v}: {v} * 2){tail})"
+                    fus = f"ds.Select(lambda e: e.{C}('A').Select(lambda j: {fexpr} * 2){tail})"
+                    md = diff.members_used(s, sep)
+                    groups.append((backend, {"query": sep, "features": {"single_use_chain_with_plugin_or_partial_step": 2, f"k{k}": 1, "x": 1}},
+                                   [("base", diff.attach_metadata(sep, md), "ast"), ("fused_by_hand", diff.attach_metadata(fus, md), "ast")]))
     for f in karg:
         w = f["witness"]
         groups.append((w["backend"], {"query": w["base"], "features": {"witness": 2, "w": 2}, "witness_of": f},
